@@ -4,6 +4,7 @@ import (
 	"bytes"
 	"fmt"
 	"io"
+	"os"
 	"strconv"
 	"strings"
 
@@ -367,8 +368,8 @@ func emitSamples(rng *hx.Rng, pf progFile, zeof bool, maxIntervals int) {
 			continue
 		}
 		for _, wl := range workLens {
-			if pf.plen > 1500 && wl >= 1 && wl <= 3 {
-				continue // the extracted model is quadratic in the number of refills; small buffers are covered on small files
+			if pf.plen > 1500 && wl >= 1 && wl <= 8 {
+				continue // the extracted model is quadratic in the number of refills; small buffers are covered on smaller files
 			}
 			orc := genOracle(rng)
 			rm, _ := copySamples(fm, pf.file, uint32(v.a), uint32(v.b), wl, orc, zeof)
@@ -386,6 +387,9 @@ func corrSamples(rng *hx.Rng, n int) {
 		}
 		if i%7 == 6 {
 			o = progOpts{maxChunks: 3, maxSpc: 3, maxSize: 3000} // over the 4096 work buffer
+		}
+		if i%7 == 5 {
+			o = progOpts{maxChunks: 3, maxSpc: 2, maxSize: 150} // many refills of the small buffers
 		}
 		mi := 24
 		if o.maxSize > 100 {
@@ -596,3 +600,114 @@ func searchFragmented(rng *hx.Rng, n int) {
 }
 
 var _ = io.EOF
+
+// ---------------------------------------------------------------- cases for the package-main hooks
+// hookCases prints  M id filehex a b expected   (examples/segmenter copyMediaData, lazy decode)
+//              and  C id filehex ranges expected (cmd/mp4ff-crop writeMdat, both decode modes).
+func hookCases(seed uint64, n int) {
+	rng := hx.NewRng(seed ^ 0xC0808)
+	for i := 0; i < n; i++ {
+		pf := genProg(rng, progOpts{maxChunks: 4, maxSpc: 3, maxSize: 6})
+		ns := len(pf.sizes)
+		for j := 0; j < 4; j++ {
+			a := rng.Range(1, ns)
+			b := rng.Range(a, ns)
+			if j == 0 {
+				a, b = 1, ns
+			}
+			if j == 1 {
+				b = ns
+			}
+			var want []byte
+			for k := a; k <= b; k++ {
+				want = append(want, pf.file[pf.locs[k-1].off:pf.locs[k-1].off+pf.locs[k-1].size]...)
+			}
+			fmt.Fprintf(out, "M\t%s\t%s\t%d\t%d\t%s\n", nextID(), hx.Hex(pf.file), a, b, "o:"+hx.Hex(want))
+		}
+		if pf.plen == 0 {
+			continue
+		}
+		hl := 8
+		if pf.large {
+			hl = 16
+		}
+		ps := pf.mdatPos + hl
+		for j := 0; j < 4; j++ {
+			// 1..3 increasing non-adjacent ranges inside the payload; j<2: the last one ends at the last payload byte
+			var rs []string
+			var want []byte
+			pos := ps + rng.Intn(pf.plen)
+			if j == 0 {
+				pos = ps
+			}
+			for k := 0; k < 3 && pos < ps+pf.plen; k++ {
+				e := pos + rng.Intn(ps+pf.plen-pos)
+				if j == 0 || (j == 1 && (k == 2 || rng.Bool())) {
+					e = ps + pf.plen - 1
+				}
+				rs = append(rs, fmt.Sprintf("%d-%d", pos, e))
+				want = append(want, pf.file[pos:e+1]...)
+				pos = e + 2 + rng.Intn(3)
+			}
+			hdr := append(be32(uint32(8+len(want))), "mdat"...)
+			fmt.Fprintf(out, "C\t%s\t%s\t%s\t%s\n", nextID(), hx.Hex(pf.file), strings.Join(rs, ","), "o:"+hx.Hex(append(hdr, want...)))
+		}
+	}
+}
+
+// ---------------------------------------------------------------- real progressive files from the repository's testdata
+func searchRealFiles(rng *hx.Rng, n int, repo string) {
+	for _, name := range []string{"prog_8s.mp4", "bbb_prog_10s.mp4"} {
+		file, err := os.ReadFile(repo + "/mp4/testdata/" + name)
+		if err != nil {
+			continue
+		}
+		file = hx.Exact(file)
+		zeof := rng.Bool()
+		fm, fl, em, el := decodeFileBoth(file, nil, zeof)
+		if !compareTrees("DecodeFile("+name+")", file, fm, fl, em, el) {
+			continue
+		}
+		for _, trak := range fm.Moov.Traks {
+			var trakL *mp4.TrakBox
+			for _, t := range fl.Moov.Traks {
+				if t.Tkhd.TrackID == trak.Tkhd.TrackID {
+					trakL = t
+				}
+			}
+			stsz := trak.Mdia.Minf.Stbl.Stsz
+			ns := int(stsz.SampleNumber)
+			if ns == 0 || trakL == nil {
+				continue
+			}
+			for j := 0; j < n; j++ {
+				a := rng.Range(1, ns)
+				b := a + rng.Intn(minInt(ns-a+1, 40))
+				if j == 0 {
+					a, b = ns-rng.Intn(minInt(ns, 5)), ns // ends at the last sample of the track
+				}
+				total, _ := stsz.GetTotalSampleSize(uint32(a), uint32(b))
+				wl := workLens[rng.Intn(len(workLens))]
+				if wl >= 1 && wl <= 3 && total > 20000 {
+					wl = 4096
+				}
+				orc := genOracle(rng)
+				evals++
+				run := func(f *mp4.File, t *mp4.TrakBox) string {
+					w := &sink{}
+					var err error
+					p := hx.Try(func() {
+						err = f.CopySampleData(w, newRS(file, 0, orc, zeof), t, uint32(a), uint32(b), hx.Exact(make([]byte, wl)))
+					})
+					return resStr(w.b, err, p)
+				}
+				rm, rl := run(fm, trak), run(fl, trakL)
+				if rm != rl || !strings.HasPrefix(rm, "o:") || (len(rm)-2)/2 != int(total) && total > 0 {
+					fail("File.CopySampleData("+name+")", "modes-differ",
+						fmt.Sprintf("%s track %d samples %d..%d workLen=%d oracle=%s zeroLenEOF=%v", name, trak.Tkhd.TrackID, a, b, wl, hx.Csv(orc), zeof),
+						"in-memory and lazy CopySampleData differ on a real file (or wrong length): "+clip(rm)+" vs "+clip(rl))
+				}
+			}
+		}
+	}
+}
